@@ -278,6 +278,65 @@ def judge(ck, sdl, schema, classes, text, label, doc, out):
                  sample={"text": text[:200], "errors": nerr} if nerr and label == "corpus" else None)
 
 
+ROOT_SCHEMAS = [
+    "type Query { a: Int } type M { a: [Int] b: Int } type S { a: [Int] b: Int } schema { query: Query mutation: M subscription: S }",
+    "type Query { a: Int } type M { a: [Int] b: Int } schema { query: Query mutation: M }",
+    "type Query { a: [Int] b: Int }",
+]
+
+
+def root_doc(rng):
+    """documents aimed at the root-level walk of DeferStreamDirectiveOnRootField: repeated, cyclic and undefined
+    spreads at the root level of mutations / subscriptions / queries, inline fragments nested in each other, fields with
+    sub-selections, duplicate fragment definitions, @defer / @stream (repeated, mixed with other directives) anywhere"""
+    names = ["A", "B", "C", "Z"]
+
+    def dirs():
+        return rng.choice(["", "", "", " @defer", " @stream", " @defer @defer", " @skip(if: true) @defer", " @stream @defer",
+                           ' @defer(label: "x")', " @stream @stream"])
+
+    def sels(depth):
+        out = []
+        for _ in range(rng.randint(1, 4)):
+            k = rng.randrange(5)
+            if k == 0:
+                out.append(rng.choice("ab") + dirs() + (" { ...A" + dirs() + " a" + dirs() + " }" if rng.random() < 0.2 else ""))
+            elif k in (1, 2):
+                out.append("..." + rng.choice(names) + dirs())
+            elif depth < 2:
+                out.append("..." + rng.choice(["", " on M"]) + dirs() + " { " + sels(depth + 1) + " }")
+            else:
+                out.append("a")
+        return " ".join(out)
+
+    defs = [rng.choice(["mutation", "subscription", "query", "mutation M1", "subscription S1"]) + dirs() + " { " + sels(0) + " }"]
+    if rng.random() < 0.2:
+        defs.append(rng.choice(["mutation M2", "subscription S2"]) + " { " + sels(0) + " }")
+    for nm in [rng.choice(["A", "B", "C"]) for _ in range(rng.randint(1, 4))]:
+        defs.append(f"fragment {nm} on M" + dirs() + " { " + sels(0) + " }")
+    rng.shuffle(defs)
+    return " ".join(defs)
+
+
+def core_root(ck, tier, m, classes):
+    from graphql import build_schema, parse
+    n = 120 if tier == "quick" else 1500
+    for sdl in ROOT_SCHEMAS:
+        schema = build_schema(sdl)
+        head = enc_dschema(schema)
+        items = []
+        for _ in range(n):
+            text = root_doc(ck.rng)
+            try:
+                doc = parse(text)
+                items.append((text, "rootwalk", doc, pc.enc_node(doc)))
+            except Exception:  # noqa: BLE001
+                ck.count("skipped_unparseable")
+        outs = m.run_batch([[5] + head + it[3] for it in items])
+        for (text, label, doc, w), out in zip(items, outs):
+            judge(ck, sdl, schema, classes, text, label, doc, out)
+
+
 def core(ck, tier, model_ok, budget_s=None):
     from graphql import build_schema, parse
     import graphql.validation as v
@@ -292,7 +351,7 @@ def core(ck, tier, model_ok, budget_s=None):
         return
     rule_text = ("for every generated (schema, document): validate(schema, doc, [R]) as a multiset of (rule, node paths) "
                  "= the extracted Valid/RulesDir.v rule, for R in KnownOperationTypes, KnownDirectives, "
-                 "UniqueDirectivesPerLocation, DeferStreamDirectiveLabel, DeferStreamDirectiveOnRootField (Valid/RulesRoot.v), alone and together. non-trivial = an error of one of them or a directive in the document")
+                 "UniqueDirectivesPerLocation, DeferStreamDirectiveLabel, DeferStreamDirectiveOnRootField (Valid/RulesRoot.v), alone and together; plus a directed family for the root-level walk (repeated / cyclic / undefined spreads, nested inline fragments, duplicate fragment definitions on three fixed schemas with / without mutation and subscription types). non-trivial = an error of one of them or a directive in the document")
     ck.extra["rulesdir_rule"] = rule_text
     if not ck.rule:
         ck.rule = rule_text
@@ -300,6 +359,7 @@ def core(ck, tier, model_ok, budget_s=None):
     corpus = [c for c in common.load_corpus(PID) if "sdl" in c and "text" in c]
     n_docs = 10 if quick else 30
     nschemas = 0
+    core_root(ck, tier, m, classes)
     while True:
         if time.time() - t0 > budget:
             ck.count("rulesdir_stopped_on_time_budget")
